@@ -210,6 +210,9 @@ func NewTicker(d time.Duration) *Ticker {
 // Stop stops the ticker.
 func (t *Ticker) Stop() { t.stopped = true }
 
+// Stopped reports whether Stop was called (and no Reset since).
+func (t *Ticker) Stopped() bool { return t.stopped }
+
 // Reset changes the period.
 func (t *Ticker) Reset(d time.Duration) { t.D = d; t.stopped = false }
 
